@@ -240,7 +240,7 @@ func TestC12(t *testing.T) {
 	cfg := evd.Env()
 	col := evd.New("C12", cfg)
 	defer col.Flush()
-	n := cfg.N(240, 8000)
+	n := cfg.N(240, 40000)
 	var ops int64
 	for i := 0; i < n; i++ {
 		seed := cfg.CaseSeed("C12", i)
@@ -497,7 +497,7 @@ func TestC12race(t *testing.T) {
 	cfg := evd.Env()
 	col := evd.New("C12", cfg)
 	defer col.Flush()
-	n := cfg.N(160, 4000)
+	n := cfg.N(160, 16000)
 	var races int64
 	for i := 0; i < n; i++ {
 		seed := cfg.CaseSeed("C12race", i)
